@@ -1,21 +1,22 @@
-SPECIFICATION Spec
+SPECIFICATION SpecAll
 CONSTANTS
-  Cfg0 <- MCfg
+  Cfg0 = 0
   Types <- MTypes
-  MaxEv = 3
-  MaxAct = 3
+  MaxEv = 2
+  MaxAct = 5
   Budget = 2
   NDrv = 1
   DrvBudget = 2
-  MaxDepth = 2
+  MaxDepth = 1
   QueueCap = 0
   HardLimit = 0
-  WithErrors = TRUE
+  WithErrors = FALSE
   WithIdle = FALSE
   WithSleep = FALSE
-  KeepLog = FALSE
+  KeepLog = TRUE
 INVARIANT TypeOK
 INVARIANT LockOK
 INVARIANT NoUnexplainedWitness
 INVARIANT TerminalOK
+INVARIANT EmitBehaviour
 CHECK_DEADLOCK FALSE
